@@ -233,12 +233,96 @@ PROPS['C05'] = {
                     "oracle on the implementation: after the first None every further next_solution() returns None and writes nothing"],
 }
 
+B_RULE = ("cases are one-clause programs `t($V1..$Vn) :- <bindings>, <built-in goal>.` asked through next_solution(); each operand of the built-in is written "
+          "literally or reached through a chain of 1-3 bound variables (either orientation of the binding goal); compared with the model exactly as in "
+          "the engine suite (substitution sets with ids, resolved answer, counter, stdout). Non-trivial = not (no answer and fewer than two clauses); "
+          "distinct = distinct encoded program text.")
+
+
+def builtin_runs(prop, kind, n, count, exhaustive=0):
+    runs = [{'suite': 'builtins', 'args': ['--kind', kind, '--props', prop, '--n', str(n)]} for _ in range(count)]
+    for i in range(exhaustive):
+        runs.append({'suite': 'builtins', 'args': ['--kind', kind, '--props', prop, '--exhaustive', '--shard', '%d/%d' % (i, exhaustive)]})
+    return runs
+
+
+PROPS['C12'] = {
+    'module': 'SuironVerif.Props.C12',
+    'theorems': ['Suiron.C12.foldInt_eq', 'Suiron.C12.add_ints', 'Suiron.C12.multiply_ints', 'Suiron.C12.subtract_ints', 'Suiron.C12.divide_ints',
+                 'Suiron.C12.add_floats', 'Suiron.C12.multiply_floats', 'Suiron.C12.subtract_floats', 'Suiron.C12.divide_floats',
+                 'Suiron.C12.toFloats_spec', 'Suiron.C12.numbers_through_bindings', 'Suiron.C12.value_is_unified'],
+    'oracles': ['C12'],
+    'suites': {'quick': builtin_runs('C12', 'arith', 3000, 2, exhaustive=1), 'thorough': builtin_runs('C12', 'arith', 50000, 8, exhaustive=4)},
+    'exhaustive_in': {'quick': True, 'thorough': True},
+    'rule': B_RULE + " Here: `$R = f(args)` / `f(args) = $R` for f in add/subtract/multiply/divide over 1-4 numbers from a pool of 16 integers and floats "
+            "(negatives, zeros incl. -0.0, 1e300, values whose products overflow); the exhaustive part enumerates all argument lists of length 1-3 over 8 numbers.",
+    'design_ref': '5.12',
+    'assumptions': ["float + - * / and i64->f64 are parameters (FloatOps): the theorems hold for every implementation of them; the driver uses the machine's doubles",
+                    "oracle on the implementation: the bound result equals the harness' own left fold (checked i64 arithmetic with truncating division, else f64 with "
+                    "integers converted), compared numerically (NaN = NaN); cases whose fold overflows or divides an integer by zero are outside the claim"],
+}
+PROPS['C14'] = {
+    'module': 'SuironVerif.Props.C14',
+    'theorems': ['Suiron.C14.compare_constants', 'Suiron.C14.fails_left', 'Suiron.C14.fails_right', 'Suiron.C14.constant_literal', 'Suiron.C14.constant_unbound',
+                 'Suiron.C14.nonconstant', 'Suiron.C14.atom_number', 'Suiron.C14.int_order', 'Suiron.C14.atom_order', 'Suiron.C14.float_order'],
+    'oracles': ['C14'],
+    'suites': {'quick': builtin_runs('C14', 'cmp', 2000, 2, exhaustive=1), 'thorough': builtin_runs('C14', 'cmp', 50000, 6, exhaustive=4)},
+    'exhaustive_in': {'quick': True, 'thorough': True},
+    'rule': B_RULE + " Here: the five comparison predicates over 24 constants (integers incl. i64 extremes and 2^53+1, floats incl. -0.0, fractions and 2^63, "
+            "atoms incl. unicode, spaces and digit strings), lists, complex terms and unbound variables; the exhaustive part is the full table "
+            "27 x 27 operands x 5 predicates, literal and chained; every case is paired with the same program without the comparison.",
+    'design_ref': '5.14',
+    'assumptions': ["i64->f64 conversion is the FloatOps parameter `ofInt` (the driver uses the machine conversion); IEEE comparison is defined in Lean on bit patterns",
+                    "oracle on the implementation: exactly one answer when Rust's own comparison of the two constants holds (i64 cmp, f64 partial_cmp after `as f64`, "
+                    "String cmp), none otherwise (incl. unbound / non-constant / atom-vs-number); on success the substitution set equals that of the program "
+                    "without the comparison goal"],
+}
+PROPS['C16'] = {
+    'module': 'SuironVerif.Props.C16',
+    'theorems': ['Suiron.C16.collect_cons', 'Suiron.C16.collect_nil', 'Suiron.C16.append_spec', 'Suiron.C16.append_result_elems', 'Suiron.C16.contribution_atom',
+                 'Suiron.C16.contribution_bound', 'Suiron.C16.listHeads_proper', 'Suiron.C16.getTerms_proper'],
+    'oracles': ['C16'],
+    'suites': {'quick': builtin_runs('C16', 'append', 3000, 3), 'thorough': builtin_runs('C16', 'append', 50000, 10)},
+    'rule': B_RULE + " Here: append with 1-4 inputs: atoms, numbers, complex terms and lists of 0-4 elements (nested and empty lists as elements, elements that are "
+            "variables bound to constants, a front part plus a bound tail variable), each possibly behind a variable chain.",
+    'design_ref': '5.16',
+    'assumptions': ["oracle on the implementation: exactly one answer whose resolved output is the proper list of all logical elements, in order",
+                    "unbound variables as inputs are outside the property's quantifier (the implementation skips them)"],
+}
+PROPS['C17'] = {
+    'module': 'SuironVerif.Props.C17',
+    'theorems': ['Suiron.C17.count_spec', 'Suiron.C17.listHeads_count', 'Suiron.C17.count_proper', 'Suiron.C17.count_empty', 'Suiron.C17.filter_spec',
+                 'Suiron.C17.filter_unifies_under_sigma', 'Suiron.C17.functor_match', 'Suiron.C17.functor_noncomplex', 'Suiron.C17.join_words',
+                 'Suiron.C17.join_first', 'Suiron.C17.join_punct', 'Suiron.C17.join_uses_values'],
+    'oracles': ['C17'],
+    'suites': {'quick': builtin_runs('C17', 'c17', 3000, 3), 'thorough': builtin_runs('C17', 'c17', 50000, 10)},
+    'rule': B_RULE + " Here: count, include, exclude, functor (2 and 3 arguments, exact and `prefix*` patterns, arity 0-4) and join (words, punctuation, numbers, "
+            "list arguments) over lists as in C16, filter patterns a / $_ / unbound variable / [$_] / f($V).",
+    'design_ref': '5.17',
+    'assumptions': ["oracle on the implementation: count = number of logical elements; include/exclude = the elements that do / do not unify with the pattern "
+                    "(computed by unifying a renamed pattern with each element on an empty set) and pattern variables still unbound afterwards; functor name/arity "
+                    "and prefix matching; join = the documented spacing rule on the resolved words"],
+}
+
 NOT_APPLICABLE = {
     'C24': 'Undefined behaviour (aliasing of raw-pointer writes, data races on static mut) is a property of pointers, borrows and threads, '
            'which a pure functional Lean model erases by construction; no executable Lean model can express it (DESIGN.md 5.24).',
 }
 
 LEVEL_TEXT = {
+    'C12': 'Proved in Lean for all argument lists and every implementation of the float operations: with integer arguments only, add/subtract/multiply/divide '
+           'are the plain left folds of + - * and truncating division whenever no intermediate leaves the i64 range and no divisor is zero; with a float among '
+           'the arguments every argument is converted and the fold is done with the float operations; arguments are read through their bindings; the value is '
+           'unified with the other operand. The parser part of the property (infix forms) is exercised by the harness through the real parser.',
+    'C14': 'Proved in Lean: with both operands (bound to) constants the predicate returns the unchanged substitution set exactly when the documented relation '
+           'holds (integer order, IEEE order with integers converted, string order; atom vs number never) and fails otherwise; unbound or non-constant '
+           'operands fail. The exhaustive 27x27x5 table is run against the implementation on every check.',
+    'C16': 'Proved in Lean: append processes its inputs left to right, each contributing the elements of a list (through bound tails), the value of a bound '
+           'variable or itself; the output is unified with the list built from exactly those elements (nothing spliced), which is well formed with the right '
+           'length. Tied to built_in_append.rs by the builtins correspondence suite.',
+    'C17': 'Proved in Lean: count = number of visited cells (= length for literal lists); include/exclude keep, in order, the elements whose test unification '
+           'under the unchanged set succeeds / fails and bind nothing; functor matches exactly or by prefix; join follows the spacing rule on the values of '
+           'its terms. Tied to the code by the builtins correspondence suite and its oracles.',
     'C01': 'PARTIAL proof + exhaustive-style differential check: the engine model (node tree with returned cut flag) and a reference choicepoint-stack '
            'machine are both executable Lean definitions; implementation, model and machine are run on the same generated programs on every check and '
            'must agree request by request (substitution sets with ids, counters, stdout) resp. answer by answer (up to variable renaming). Proved for all '
